@@ -10,7 +10,7 @@ use crate::rng::{hash_str, mix, Rng, Sig};
 use crate::spec::*;
 use crate::world::{self, RunResult};
 
-#[derive(Clone, Debug, Default)]
+#[derive(Clone, Debug, Default, serde::Serialize, serde::Deserialize)]
 pub struct RunStats {
     pub ops: u64,
     pub calls: u64,
@@ -42,6 +42,9 @@ pub fn batches(prop: &str, tier: &str) -> Vec<(&'static str, u64)> {
     match prop {
         "C01" | "C02" | "C04" | "C07" => vec![("fault-free", t(120_000)), ("faults", t(80_000))],
         "C03" => vec![("fault-free", t(160_000)), ("user-faults", t(40_000))],
+        "C10" => vec![("fine", t(100_000))],
+        "C13" => vec![("lending", t(50_000)), ("long-chains", t(150))],
+        "C08" => vec![("mock-panics", t(100_000)), ("user-faults", t(60_000))],
         _ => vec![],
     }
 }
@@ -154,6 +157,9 @@ pub fn generate(prop: &str, base_seed: u64, batch: &str, run: u64) -> Scenario {
     let mut rng = Rng::new(seed);
     match prop {
         "C01" | "C02" | "C03" | "C04" | "C07" => gen_coarse(prop, base_seed, batch, run, &mut rng),
+        "C10" => crate::fine::gen_c10(base_seed, batch, run, &mut rng),
+        "C13" => crate::lifeworld::gen_c13(base_seed, batch, run, &mut rng),
+        "C08" => crate::fine::gen_c08(base_seed, batch, run, &mut rng),
         other => panic!("no generator for {other}"),
     }
 }
@@ -220,9 +226,91 @@ fn gen_coarse(prop: &str, base_seed: u64, batch: &str, run: u64, rng: &mut Rng) 
     }
 }
 
+/// Run the check in a child process: used where the failure mode is the death of the process
+/// (stack overflow, double panic). The child's death *is* the observation.
+pub fn check_isolated(scn: &Scenario) -> Checked {
+    use std::io::Write;
+    use std::process::{Command, Stdio};
+    let mut child = match Command::new(std::env::current_exe().expect("exe"))
+        .arg("isolated")
+        .stdin(Stdio::piped())
+        .stdout(Stdio::piped())
+        .stderr(Stdio::piped())
+        .spawn()
+    {
+        Ok(c) => c,
+        Err(e) => return Checked { violations: vec![], stats: RunStats::default(), harness_error: Some(format!("cannot spawn child: {e}")) },
+    };
+    let input = serde_json::to_vec(scn).expect("scenario json");
+    let mut stdin = child.stdin.take().unwrap();
+    let writer = std::thread::spawn(move || {
+        let _ = stdin.write_all(&input);
+    });
+    let out = child.wait_with_output();
+    let _ = writer.join();
+    let out = match out {
+        Ok(o) => o,
+        Err(e) => return Checked { violations: vec![], stats: RunStats::default(), harness_error: Some(format!("child wait failed: {e}")) },
+    };
+    let stdout = String::from_utf8_lossy(&out.stdout);
+    if let Some(line) = stdout.lines().rev().find(|l| l.contains("\"isolated_result\":true")) {
+        if let Ok(val) = serde_json::from_str::<serde_json::Value>(line) {
+            let violations: Vec<Violation> = serde_json::from_value(val["violations"].clone()).unwrap_or_default();
+            let stats: RunStats = serde_json::from_value(val["stats"].clone()).unwrap_or_default();
+            let harness_error = val["harness_error"].as_str().map(|s| s.to_string());
+            return Checked { violations, stats, harness_error };
+        }
+    }
+    // no result: the process died
+    let stderr = String::from_utf8_lossy(&out.stderr);
+    let tail: String = stderr.lines().rev().take(4).collect::<Vec<_>>().into_iter().rev().collect::<Vec<_>>().join(" | ");
+    let mut stats = RunStats::default();
+    stats.nontrivial = true;
+    *stats.faults.entry("process_death".into()).or_default() += 1;
+    Checked {
+        violations: vec![crate::oracle::v(
+            &scn.prop,
+            "process-aborted",
+            "abort",
+            format!("the process running the scenario died ({}) instead of finishing: {}", out.status, tail),
+        )],
+        stats,
+        harness_error: None,
+    }
+}
+
+pub fn main_isolated() -> i32 {
+    std::panic::set_hook(Box::new(|_| {}));
+    let mut input = String::new();
+    use std::io::Read;
+    if std::io::stdin().read_to_string(&mut input).is_err() {
+        return 2;
+    }
+    let scn: Scenario = match serde_json::from_str(&input) {
+        Ok(s) => s,
+        Err(_) => return 2,
+    };
+    let c = check_in_process(&scn);
+    println!(
+        "{}",
+        serde_json::json!({"isolated_result": true, "violations": c.violations, "stats": c.stats, "harness_error": c.harness_error})
+    );
+    0
+}
+
 pub fn check(scn: &Scenario) -> Checked {
+    if scn.knob("isolated").unwrap_or(0) != 0 && std::env::var("SIM_ISOLATED_CHILD").is_err() {
+        return check_isolated(scn);
+    }
+    check_in_process(scn)
+}
+
+pub fn check_in_process(scn: &Scenario) -> Checked {
     match scn.prop.as_str() {
         "C01" | "C02" | "C03" | "C04" | "C07" => check_coarse(scn),
+        "C10" => crate::fine::check_c10(scn),
+        "C13" => crate::lifeworld::check_c13(scn),
+        "C08" => crate::fine::check_c08(scn),
         other => Checked {
             violations: vec![],
             stats: RunStats::default(),
